@@ -15,6 +15,7 @@
 (*                                                                         *)
 (* A call is a record; the alphabet of an instance is a sequence of calls: *)
 (*  [call |-> "uses", o]                          o: a pool object id      *)
+(*  [call |-> "uses_list", os]                    os: sequence of pool ids  *)
 (*  [call |-> "create_container", n, cap, entries]                         *)
 (*  [call |-> "create_solution", n, solute, solvent, q, qu, total, tu]     *)
 (*  [call |-> "create_solution_from", src, n, solute, solvent, t, nu, du,  *)
@@ -145,7 +146,7 @@ Finish(c, res, cls, nrs, nves) ==
   /\ rs' = [nrs EXCEPT !.calls = Append(rs.calls, c)]
   /\ ves' = nves
   /\ last' = [op |-> "call", call |-> c, res |-> res, cls |-> cls, history |-> rs.calls,
-              nsteps |-> Len(nrs.prog), decl |-> nrs.decl, locked |-> nrs.locked,
+              nsteps |-> Len(nrs.prog), decl |-> nrs.decl, locked |-> nrs.locked, dead |-> nrs.dead,
               cur |-> nrs.cur, stageNames |-> {nrs.stages[i].name : i \in DOMAIN nrs.stages}]
 
 Refuse(c, res, cls) == Finish(c, res, cls, rs, ves)
@@ -155,6 +156,20 @@ Uses(c) ==
   IF rs.locked THEN Refuse(c, "RuntimeError", "locked")
   ELSE IF nm \in Declared THEN Refuse(c, "refused", "duplicate_name")
   ELSE Finish(c, "ok", "declared", [rs EXCEPT !.decl = Append(@, nm)], ves)
+
+\* uses([o1, o2, ...]) / uses(o1, o2, ...): the objects are declared one after the other, as separate uses() calls would;
+\* the first one whose name exists already (also a name introduced earlier in the same list) makes the call fail, and what
+\* was declared before it stays declared
+RECURSIVE DeclareAll(_, _)
+DeclareAll(decl, os) ==
+  IF os = <<>> THEN [decl |-> decl, ok |-> TRUE]
+  ELSE LET nm == ObjName[Head(os)] IN
+       IF \E i \in DOMAIN decl : decl[i] = nm THEN [decl |-> decl, ok |-> FALSE]
+       ELSE DeclareAll(Append(decl, nm), Tail(os))
+UsesList(c) ==
+  IF rs.locked THEN Refuse(c, "RuntimeError", "locked")
+  ELSE LET r == DeclareAll(rs.decl, c.os) IN
+       Finish(c, IF r.ok THEN "ok" ELSE "refused", IF r.ok THEN "declared" ELSE "duplicate_name", [rs EXCEPT !.decl = r.decl], ves)
 
 \* declare, in order, the operands of c that exist outside the recipe and are not declared yet (AutoUses)
 PoolNames == {ObjName[o] : o \in DOMAIN ObjName}
@@ -183,14 +198,18 @@ StepCall(c) ==
                                      !.doomed = IF rs.doomed = 0 /\ ~ap.ok THEN Len(r1.prog) ELSE @]
                 IN  Finish(c, "ok", ap.cls, r2, IF ap.ok THEN ap.V ELSE V0)
 
+\* (after a bake that failed part-way the stage bookkeeping is no longer specified - the implementation may or may not have
+\* closed the open stage - but the recipe is NOT locked: a stage call must not raise RuntimeError)
 StartStage(c) ==
   IF rs.locked THEN Refuse(c, "RuntimeError", "locked")
+  ELSE IF rs.dead THEN Refuse(c, "notRuntimeError", "after_failed_bake")
   ELSE IF c.name \in StageNames \cup {"all"} THEN Refuse(c, "refused", "stage_name_exists")
   ELSE IF rs.cur # "all" THEN Refuse(c, "refused", "stage_open")
   ELSE Finish(c, "ok", "stage", [rs EXCEPT !.cur = c.name, !.curStart = NSteps], ves)
 
 EndStage(c) ==
   IF rs.locked THEN Refuse(c, "RuntimeError", "locked")
+  ELSE IF rs.dead THEN Refuse(c, "notRuntimeError", "after_failed_bake")
   ELSE IF c.name = "all" \/ rs.cur # c.name THEN Refuse(c, "refused", "stage_mismatch")
   ELSE Finish(c, "ok", "stage", [rs EXCEPT !.stages = Append(@, [name |-> c.name, lo |-> rs.curStart, hi |-> NSteps]),
                                            !.cur = "all"], ves)
@@ -255,11 +274,11 @@ Bake(c) ==
            THEN /\ rs' = [rs EXCEPT !.dead = TRUE, !.calls = Append(rs.calls, c)]
                 /\ ves' = ves
                 /\ last' = [op |-> "call", call |-> c, res |-> "ValueError", cls |-> "step_infeasible", history |-> rs.calls,
-                            nsteps |-> NSteps, decl |-> rs.decl, locked |-> FALSE, clss |-> rs.clss, prog |-> rs.prog]
+                            nsteps |-> NSteps, decl |-> rs.decl, locked |-> FALSE, dead |-> TRUE, clss |-> rs.clss, prog |-> rs.prog]
            ELSE /\ rs' = [closed EXCEPT !.locked = TRUE, !.calls = Append(rs.calls, c)]
                 /\ ves' = ves
                 /\ last' = [op |-> "call", call |-> c, res |-> "ok", cls |-> "baked", history |-> rs.calls,
-                            nsteps |-> NSteps, decl |-> rs.decl, locked |-> TRUE,
+                            nsteps |-> NSteps, decl |-> rs.decl, locked |-> TRUE, dead |-> FALSE,
                             cur |-> "all", stageNames |-> {closed.stages[i].name : i \in DOMAIN closed.stages},
                             results |-> [i \in DOMAIN rs.decl |-> ves[rs.decl[i]]],
                             stages |-> closed.stages, prog |-> rs.prog, clss |-> rs.clss,
@@ -268,16 +287,18 @@ Bake(c) ==
                             battery |-> IF Life THEN <<>> ELSE Battery(closed)]
 
 Do(c) == CASE c.call = "uses" -> Uses(c)
+           [] c.call = "uses_list" -> UsesList(c)
            [] StepAdding(c) -> StepCall(c)
            [] c.call = "start_stage" -> StartStage(c)
            [] c.call = "end_stage" -> EndStage(c)
            [] c.call = "bake" -> Bake(c)
 
 \* (a program is extended only from states on the instance's lattice: DenOK keeps TLC's 32-bit rationals in range)
-RStep == /\ ~rs.dead
-         /\ DenOK
+\* (after a bake that failed on an infeasible step the results are no longer specified and baking again is not generated; the
+\* recipe is, however, not locked: declaring and step-adding calls keep their discipline, which is explored)
+RStep == /\ DenOK
          /\ Len(rs.calls) < MaxCalls
-         /\ \E i \in DOMAIN Alphabet : InShard(i) /\ Do(Alphabet[i])
+         /\ \E i \in DOMAIN Alphabet : InShard(i) /\ (rs.dead => Alphabet[i].call # "bake") /\ Do(Alphabet[i])
 
 REmit == PrintT(ToJson(last'))
 RNext == RStep /\ REmit
